@@ -29,12 +29,18 @@ type TxOp struct {
 	K   string `json:"k"` // get scan put del
 	Key int    `json:"key,omitempty"`
 	Tag int    `json:"tag,omitempty"`
+	// put: the value is larger than a log record may be - the commit will be refused
+	Big bool `json:"big,omitempty"`
 }
 
 type TxSpec struct {
 	RO     bool   `json:"ro,omitempty"`
 	Ops    []TxOp `json:"ops"`
 	Commit bool   `json:"commit"`
+	// RetryTag > 0: if the commit is refused the client waits a moment, puts an
+	// ordinary value (this tag) over the key of its first oversized put and
+	// commits the same handle again
+	RetryTag int `json:"retry_tag,omitempty"`
 }
 
 type TxCase struct {
@@ -55,6 +61,9 @@ type txOut struct {
 	reads     []txRead
 	committed bool
 	beginErr  bool
+	// the second commit of a handle whose first commit was refused succeeded
+	// (with the ordinary value in place of the oversized one)
+	committedOnRetry bool
 }
 
 func txKey(i int) []byte { return []byte(fmt.Sprintf("tk%d", i)) }
@@ -95,6 +104,15 @@ var txModel = porcupine.Model{
 			}
 		}
 		if o.committed && !spec.RO {
+			return true, view
+		}
+		if o.committedOnRetry && !spec.RO {
+			for _, op := range spec.Ops {
+				if op.K == "put" && op.Big {
+					view[op.Key] = fmt.Sprintf("x%06d", spec.RetryTag)
+					break
+				}
+			}
 			return true, view
 		}
 		return true, st
@@ -193,6 +211,9 @@ func runC04(t *testing.T, c TxCase) *kit.Result {
 							for len(v) < c.ValPad {
 								v = append(v, '.')
 							}
+							if op.Big {
+								v = append(v, make([]byte, 40000)...)
+							}
 							if err := tx.Put(txKey(op.Key), v); err != nil {
 								failed = true
 							}
@@ -233,6 +254,20 @@ func runC04(t *testing.T, c TxCase) *kit.Result {
 							o.committed = true
 						} else {
 							res.Probe("commit_errors")
+							if spec.RetryTag > 0 {
+								// the program treats the refusal as something to repair and try again
+								simrt.Sleep(time.Duration(1+spec.RetryTag%7) * time.Millisecond)
+								for _, op := range spec.Ops {
+									if op.K == "put" && op.Big {
+										tx.Put(txKey(op.Key), []byte(fmt.Sprintf("x%06d", spec.RetryTag)))
+										break
+									}
+								}
+								if tx.Commit() == nil {
+									o.committedOnRetry = true
+								}
+								res.Probe("commits_tried_again_after_a_refusal")
+							}
 						}
 					} else {
 						tx.Rollback()
@@ -332,6 +367,14 @@ func genTxCase(r *kit.Rand, tier string) TxCase {
 				case r.Bool(0.8):
 					tag++
 					spec.Ops = append(spec.Ops, TxOp{K: "put", Key: r.Intn(txKeys), Tag: tag})
+					if r.Bool(0.06) {
+						spec.Ops[len(spec.Ops)-1].Big = true
+						spec.Commit = true
+						if r.Bool(0.7) {
+							tag++
+							spec.RetryTag = tag
+						}
+					}
 				default:
 					spec.Ops = append(spec.Ops, TxOp{K: "del", Key: r.Intn(txKeys)})
 				}
@@ -379,6 +422,6 @@ func TestC04(t *testing.T) {
 			return out
 		},
 		Strip: func(c TxCase) any { d := c; d.Sched = kit.Sched{}; return d },
-		Rule:  "2-6 client tasks, at most 14 transactions in total (read-only or read-write; 1-5 operations of get/scan/put/delete; commit or rollback), 4 keys, unique values, conc/dense scheduling with the engine's background tasks; no writes outside transactions. One porcupine operation per transaction [begin invoked, commit/rollback returned] against a serial map model (reads replayed against state + own writes; write set applied if committed), 20 s cap, timeouts counted inconclusive. A final read-only scan closes the history. non-trivial = >=1 pair of overlapping transactions and >=1 committed read-write transaction",
+		Rule:  "2-6 client tasks, at most 14 transactions in total (read-only or read-write; 1-5 operations of get/scan/put/delete; commit or rollback), 4 keys, unique values (6% of the puts carry a value no log record can hold, so that the commit is refused; in 70% of those the client then puts an ordinary value over it and commits the same handle again a few milliseconds later), conc/dense scheduling with the engine's background tasks; no writes outside transactions. One porcupine operation per transaction [begin invoked, commit/rollback returned] against a serial map model (reads replayed against state + own writes; write set applied if committed), 20 s cap, timeouts counted inconclusive. A final read-only scan closes the history. non-trivial = >=1 pair of overlapping transactions and >=1 committed read-write transaction",
 	})
 }
